@@ -161,7 +161,13 @@ func applyStoreOp(s *flyt.SharedStore, o storeOp) (map[string]any, any) {
 		res["n"] = len(m)
 		snap = m
 	case "merge":
-		s.Merge(mergeArg(o.M))
+		arg := mergeArg(o.M)
+		s.Merge(arg)
+		// the argument stays the caller's: what the caller does to it afterwards is none of the store's business
+		for k := range arg {
+			arg[k] = "changed by the caller after Merge"
+		}
+		arg[keyName(97)] = "added by the caller after Merge"
 	case "mergenil":
 		s.Merge(nil)
 	case "clear":
@@ -491,6 +497,18 @@ func init() {
 		}
 		stress := strings.Contains(modes, "stress")
 		r := rand.New(rand.NewSource(seed*65537 + 11))
+		if strings.Contains(modes, "churn") {
+			id := 0
+			for i := 0; i < count; i++ {
+				owners := 2 + r.Intn(4)
+				resident := []int{0, 40, 600, 1500}[r.Intn(4)]
+				for g, l := range runStoreChurn(r, owners, 1200, 40000, resident) {
+					id++
+					o.WriteScenario(id, "storeowner", "gen", map[string]any{"run": i + 1, "owner": g + 1, "owners": owners, "resident": resident}, nil, l)
+				}
+			}
+			return
+		}
 		for i := 0; i < count; i++ {
 			g := 2 + r.Intn(5)
 			nKeys := 2 + r.Intn(7)
